@@ -40,6 +40,7 @@ func runC03(w *core.World, r *core.Report) {
 	r.Rule("R6", "IndexError edge: no renderer reset, no code fetch, READIN set again")
 	r.Rule("R7", "State.SetInput in the engine records the Exec parameter unmodified")
 	r.Rule("R8", "READIN is raised by the INCMP gate only while no match is recorded (or again on the refused-previous edge)")
+	r.Rule("R15", "in the target dispatcher the error of State.Next / State.Previous reaches the caller (a refused lateral move is no match)")
 	r.Rule("R14", "flag addressing loses no bits (C06 R9): a client flag index cannot wrap onto INMATCH, READIN or WAIT")
 	r.Rule("R13", "the pending code recorded after a run is that run's own result, on its success edge only (C08 R9): a failed run does not leave stale INCMP lines to match the next input")
 	r.Rule("R12", "the destructive code getter State.GetCode is called only by methods of DefaultEngine (code fetch, reset), never by diagnostics or other packages")
@@ -198,6 +199,7 @@ func runC03(w *core.World, r *core.Report) {
 	}
 
 	checkCodeRecordedFromRun(w, r, "R13")
+	checkLateralErrorsReturned(w, r, "R15")
 	checkFlagAddressing(w, r, "R14")
 	// ---- R3 -----------------------------------------------------------------------------------
 	run := w.Func("vm", "(*Vm).Run")
